@@ -8,6 +8,11 @@
 (*   status   exit status of the differ / wrapped command (mode diff, wrap)                   *)
 (*   src      the set of pager sources that are set: subset of {"config","delta","bat","pager"} *)
 (*   pagerval value of $PAGER ("envpager" | "more" | "less -F")                                *)
+(*   stay     the pager, having stopped reading, closes its input but stays alive for a while  *)
+(*   big      the output is larger than a pipe buffer (a write after the pager stopped reading  *)
+(*            really fails)                                                                    *)
+(*   how      mode diff: "files" two paths | "samepath" the same path twice | "badopt" an        *)
+(*            option the differ rejects (status >= 2 then comes from the differ itself)          *)
 (* The operators below say what must be observed; they are used both to enumerate the fault  *)
 (* space (MC_Pager) and to judge recorded runs (Trace_Pager).                                *)
 EXTENDS Naturals, Sequences, FiniteSets
